@@ -340,4 +340,179 @@ theorem write_split (fs : Fs) (p : Path) (a b : Bytes) :
   | some v =>
     rw [get_write _ _ _ _ h, get_write _ _ _ _ (get_write _ _ _ _ h), List.append_assoc]
 
+/-! ## several tasks run by the worker pool -/
+
+/-- everything `SafeInv` of task `t` looks at, and everything `minify(t)` can change -/
+def footprint (t : Task) : List Path := t.srcs ++ t.srcs.map bak ++ [t.dst, bak t.dst]
+
+theorem safeInv_congr (orig cur1 cur2 final : View) (inputs dsts : List Bytes)
+    (h : ∀ p ∈ inputs, cur1 p = cur2 p ∧ cur1 (bakName p) = cur2 (bakName p))
+    (h1 : SafeInv orig cur1 final inputs dsts) : SafeInv orig cur2 final inputs dsts := by
+  intro p hp
+  obtain ⟨ha, hb⟩ := h p hp
+  obtain ⟨h2, h3⟩ := h1 p hp
+  simp only [SafeAt] at h2 ⊢
+  rw [← ha, ← hb]
+  exact ⟨h2, h3⟩
+
+/-- **crash_safe_parallel**: tasks whose footprints are pairwise disjoint from what the other tasks can
+    change (directory → directory, a whole directory in place, sync) run by the worker pool in **any
+    interleaving**, killed at **any point**: `SafeInv` holds for every task. -/
+theorem crash_safe_parallel (cfg : Cfg) (lib : Bytes → Option Bytes) (orig : Fs)
+    (ts : List (Task × Writes)) (sch : List Nat) (i : Nat) (t : Task) (w : Writes)
+    (hi : ts[i]? = some (t, w))
+    (hdisj : ∀ j tj wj, j ≠ i → ts[j]? = some (tj, wj) →
+      tj.dst ∉ footprint t ∧ bak tj.dst ∉ footprint t)
+    (hex : InputsExist t orig) (hw : WritesDeliver w (outBytes cfg lib t orig))
+    (hg : trigBakInput t = false) :
+    SafeInv (viewOf orig.files)
+      (viewOf (run (interleave (ts.map (fun tw => minifyOps cfg tw.2 tw.1 orig)) sch) orig).files)
+      (finalView cfg lib t orig) (inputFiles t) [t.dst] := by
+  have hrem : (ts.map (fun tw => minifyOps cfg tw.2 tw.1 orig))[i]?.getD [] = minifyOps cfg w t orig := by
+    simp [List.getElem?_map, hi]
+  obtain ⟨k, hk⟩ := interleave_project (footprint t) i sch
+    (ts.map (fun tw => minifyOps cfg tw.2 tw.1 orig)) orig orig (AgreeOn.refl _ _)
+    (by
+      rw [hrem]
+      intro op ho q hq
+      rcases touches_minifyOps cfg w t orig op ho q hq with h | h <;> simp [footprint, h])
+    (by
+      intro j l hne hl op ho q hq hqS
+      simp only [List.getElem?_map, Option.map_eq_some_iff] at hl
+      obtain ⟨⟨tj, wj⟩, htj, rfl⟩ := hl
+      obtain ⟨h1, h2⟩ := hdisj j tj wj hne htj
+      rcases touches_minifyOps cfg wj tj orig op ho q hq with h | h
+      · exact h1 (h ▸ hqS)
+      · exact h2 (h ▸ hqS))
+  rw [hrem] at hk
+  refine safeInv_congr _ _ _ _ _ _ ?_ (crash_safe_partial cfg lib w t orig k hex hw hg)
+  intro p hp
+  have hps : p ∈ t.srcs := by
+    simp only [inputFiles, List.mem_filter] at hp; exact hp.1
+  constructor
+  · exact (hk p (by simp [footprint, hps])).symm
+  · exact (hk (bak p) (by simp only [footprint, List.mem_append, List.mem_map]; exact Or.inl (Or.inr ⟨p, hps, rfl⟩))).symm
+
+/-- non-vacuity: two in-place tasks on different files have disjoint footprints -/
+example : let a : Task := { srcs := [strBytes "a.css"], dst := strBytes "a.css" }
+    let b : Task := { srcs := [strBytes "b.js"], dst := strBytes "b.js" }
+    b.dst ∉ footprint a ∧ bak b.dst ∉ footprint a ∧ a.dst ∉ footprint b ∧ bak a.dst ∉ footprint b := by decide
+
+/-! ## what is read -/
+
+theorem map_replaceFirst {β : Type} (f g : Path → β) (a b : Path) (l : List Path) (hn : l.Nodup)
+    (hab : f b = g a) (hx : ∀ x ∈ l, x ≠ a → f x = g x) :
+    (replaceFirst l a b).map f = l.map g := by
+  induction l with
+  | nil => rfl
+  | cons x r ih =>
+    have hnr := (List.nodup_cons.mp hn)
+    simp only [replaceFirst]
+    by_cases hxa : x = a
+    · subst hxa
+      simp only [beq_self_eq_true, if_true, List.map_cons, hab, List.cons.injEq, true_and]
+      apply List.map_congr_left
+      intro y hy
+      exact hx y (List.mem_cons_of_mem _ hy) (fun h => hnr.1 (h ▸ hy))
+    · have : (x == a) = false := by simpa using hxa
+      simp only [this, Bool.false_eq_true, if_false, List.map_cons]
+      rw [hx x (List.mem_cons_self ..) hxa, ih hnr.2 (fun y hy => hx y (List.mem_cons_of_mem _ hy))]
+
+theorem touches_headOps (t : Task) (fs : Fs) :
+    ∀ op ∈ headOps t fs, ∀ q ∈ touches op, q = t.dst ∨ q = bak t.dst := by
+  intro op h q hq
+  simp only [headOps, List.mem_append] at h
+  rcases h with (h | h) | h
+  · exact touches_preOps _ _ _ h _ hq
+  · rw [touches_openOps _ _ h] at hq; simp at hq
+  · simp only [outOps] at h
+    split at h
+    · simp at h
+    · simp only [List.mem_append, List.mem_cons, List.not_mem_nil, or_false] at h
+      rcases h with h | h
+      · rw [touches_mkdirOps _ _ _ h] at hq; simp at hq
+      · subst h; left; simpa [touches] using hq
+
+/-- **what a task reads** (the sources are opened lazily, *after* the destination has been truncated):
+    with pairwise different sources, none of them spelled `<dst>.bak`, the bytes handed to the minifier
+    are the original contents of the sources joined by the separator — also when one source is the
+    destination (it is read from its backup). -/
+theorem inputBytes_spec (cfg : Cfg) (t : Task) (orig : Fs) (hex : InputsExist t orig)
+    (hg : trigBakInput t = false) (hnd : t.srcs.Nodup) :
+    inputBytes cfg t orig = t.sep.intercalate (t.srcs.map (contentOf cfg orig)) := by
+  simp only [inputBytes]
+  congr 1
+  have hbd : bak t.dst ≠ t.dst := bak_ne _
+  have hgn : bak t.dst ∉ t.srcs := by
+    intro h
+    simp only [trigBakInput] at hg
+    rw [List.contains_iff_mem.mpr h] at hg; cases hg
+  have hframe : ∀ q, q ≠ t.dst → q ≠ bak t.dst →
+      (run (headOps t orig) orig).get q = orig.get q := by
+    intro q h1 h2
+    apply get_run_untouched
+    intro op ho hq
+    rcases touches_headOps t orig op ho q hq with h | h
+    · exact h1 h
+    · exact h2 h
+  cases hr : renamed t orig with
+  | false =>
+    simp only [srcs1, hr, Bool.false_eq_true, if_false]
+    apply List.map_congr_left
+    intro s hs
+    simp only [contentOf]
+    by_cases hse : s.isEmpty = true
+    · simp [hse]
+    · simp only [hse, Bool.false_eq_true, if_false]
+      by_cases hsd : s = t.dst
+      · -- then the destination is an existing source: it would have been renamed
+        exfalso
+        have hne : t.dst.isEmpty = false := by rw [← hsd]; simpa using hse
+        have hin : s ∈ inputFiles t := by
+          simp only [inputFiles, List.mem_filter]; exact ⟨hs, by simpa using hse⟩
+        have := hex s hin
+        simp only [renamed, hne, Bool.not_false, Bool.true_and, Bool.and_eq_false_iff] at hr
+        rcases hr with hr | hr
+        · rw [← hsd] at hr
+          rw [List.contains_iff_mem.mpr hs] at hr; cases hr
+        · rw [← hsd, this] at hr; cases hr
+      · rw [hframe s hsd (fun h => hgn (h ▸ hs))]
+  | true =>
+    have hr' := hr
+    simp only [renamed, Bool.and_eq_true, List.contains_iff_mem, Bool.not_eq_true',
+      List.isEmpty_eq_false_iff] at hr'
+    obtain ⟨⟨hne, hmem⟩, hsome⟩ := hr'
+    simp only [srcs1, hr, if_true]
+    apply map_replaceFirst _ _ _ _ _ hnd
+    · -- the backup holds what the destination held
+      have hb : (run (headOps t orig) orig).get (bak t.dst) = orig.get t.dst := by
+        simp only [headOps, preOps, hr, if_true, List.cons_append, List.nil_append,
+          run_cons]
+        rw [get_run_untouched]
+        · rw [get_rename_dst]
+          obtain ⟨v, hv⟩ := Option.isSome_iff_exists.mp hsome
+          rw [hv]; rfl
+        · intro op ho hq
+          simp only [List.mem_append] at ho
+          rcases ho with ho | ho
+          · rw [touches_openOps _ _ ho] at hq; simp at hq
+          · simp only [outOps] at ho
+            split at ho
+            · simp at ho
+            · simp only [List.mem_append, List.mem_cons, List.not_mem_nil, or_false] at ho
+              rcases ho with ho | ho
+              · rw [touches_mkdirOps _ _ _ ho] at hq; simp at hq
+              · subst ho
+                simp only [touches, List.mem_cons, List.not_mem_nil, or_false] at hq
+                exact hbd hq
+      have hbe : (bak t.dst).isEmpty = false := by simp [bak, bakSuffix]
+      have hde : t.dst.isEmpty = false := by simpa using hne
+      simp only [contentOf, hbe, hde, Bool.false_eq_true, if_false, hb]
+    · intro s hs hsd
+      simp only [contentOf]
+      by_cases hse : s.isEmpty = true
+      · simp [hse]
+      · simp only [hse, Bool.false_eq_true, if_false]
+        rw [hframe s hsd (fun h => hgn (h ▸ hs))]
+
 end Verif.Props.C20
